@@ -190,6 +190,9 @@ func (q qiDecoder) sliceValue(v reflect.Value) error {
 		return fmt.Errorf("failed to read vector size: %w", err)
 	}
 	l := int(length)
+	if l < 0 {
+		return fmt.Errorf("invalid vector size: %d", l)
+	}
 	if v.Kind() == reflect.Ptr && v.IsNil() {
 		if !v.CanSet() {
 			return fmt.Errorf("cannot set slice: %v", v)
